@@ -180,7 +180,7 @@ def render_logical(tokens, lay, rng):
         if i == 0:
             cur = t
         elif i in wraps:
-            lines.append(cur + ' =')
+            lines.append(cur + ('=' if lay.get('tight') else ' ='))      # the mark is the last character of the line, with or without a blank in front
             cur = ' ' * lay.get('indent', 3) + t
         else:
             cur += ' ' * (gap if isinstance(gap, int) else rng.randint(1, 3)) + t
@@ -295,6 +295,10 @@ def instr_tokens(rng, kw, names, arity=None, nwords=None, suffix=None):
     return toks, nums, ws
 
 
+ZERO_OK = {'DAMP', 'ISOR', 'SIMU', 'DELU', 'RIGU', 'SADI', 'FLAT', 'CHIV', 'SAME', 'BUMP', 'WIGL', 'SWAT', 'SPEC', 'XNPD', 'SHEL', 'ABIN', 'ANSR', 'TWST',
+           'WPDB', 'PRIG', 'GRID', 'EXTI', 'TEMP', 'SIZE', 'MERG', 'STIR'}
+
+
 def gen_file(rng, natoms=None, ninstr=None, with_qpeaks=True, restraints=True, keywords=None, resi=True, parts=True, afix=True):
     """returns dict(lines=[logical line dicts], atoms=[expected atom dicts], header info)"""
     lines = []
@@ -347,6 +351,9 @@ def gen_file(rng, natoms=None, ninstr=None, with_qpeaks=True, restraints=True, k
             add(['EQIV', '$1', '-x,', 'y+1/2,', '-z'], 'instr', kw='EQIV')
             continue
         toks, nums, ws = instr_tokens(rng, kw, names)
+        if nums and kw in ZERO_OK and rng.random() < 0.12:
+            toks = [toks[0]] + ['0'] * len(nums) + toks[1 + len(nums):]
+            nums = [0] * len(nums)
         add(toks, 'instr', kw=kw, nums=nums, words=ws)
     REMS = [['REM', 'target', 'distance', 'd(C-C)', '=', '1.54'], ['REM', 'a', 'plain', 'remark'], ['REM', 'R1', '=', '0.0400', 'for', '1234', 'Fo', '>', '4sig(Fo)'],
             ['REM'], ['REM', 'SADI', 'C1', 'C2', '=']]
@@ -383,14 +390,26 @@ def gen_file(rng, natoms=None, ninstr=None, with_qpeaks=True, restraints=True, k
             ctx['part'] = (n, sof)
         elif afix and r < 0.42:
             mn = rng.choice([43, 137, 23, 66, 0])
-            add(['AFIX', str(mn)], 'afix', mn=mn)
+            # AFIX mn d[#] sof[11] U[10.08]: d, sof and U are for the hydrogens SHELXL generates itself; atoms of the file keep their own values
+            extra = rng.choice([[], [], ['0.98'], ['0.98', '10.5'], ['1.39', '21.0', '-1.2'], ['0.96', '11.0', '-1.5']]) if mn else []
+            add(['AFIX', str(mn)] + extra, 'afix', mn=mn)
             ctx['afix'] = mn
+            ctx['afix_sof'] = len(extra) >= 2
         elif r > 0.97:
             add(rng.choice(REMS), 'rem')
         elif restraints and r < 0.6:
             kw = rng.choice(rkw)
             suffix = rng.choice([None, None, None, str(ctx['resi'][0]) if ctx['resi'][0] else None, ctx['resi'][1] if ctx['resi'][1] else None])
             toks, nums, ws = instr_tokens(rng, kw, names, suffix=suffix)
+            if ws and suffix is None and kw not in ('RTAB',) and rng.random() < 0.3:
+                # atoms addressed with their residue number (NAME_n); the number of the residue in force or 0
+                k0 = len(toks) - len(ws)
+                ws = [w + '_%d' % rng.choice([0, ctx['resi'][0]]) if w[0].isalpha() and '_' not in w and rng.random() < 0.6 else w for w in ws]
+                toks = toks[:k0] + ws
+            # explicit zeros are values like any other ('DAMP 0 0', 'ISOR 0 0'): now and then every number is written as 0
+            if nums and kw in ZERO_OK and rng.random() < 0.12:
+                toks = [toks[0]] + ['0'] * len(nums) + toks[1 + len(nums):]
+                nums = [0] * len(nums)
             add(toks, 'instr', kw=kw, nums=nums, words=ws, suffix=suffix)
         el = ''.join(c for c in nm if c.isalpha())[:2]
         el = el if el in els else el[:1]
@@ -400,6 +419,8 @@ def gen_file(rng, natoms=None, ninstr=None, with_qpeaks=True, restraints=True, k
             xyz[rng.randrange(3)] = rng.choice([0.0, 0.5, 0.25, 1.0, 0.33333, 0.00003, -0.00002, 0.00001, -0.5, 0.0001])
         own_sof = rng.choice([11.0, 11.0, 10.5, 21.0, -21.0, 10.25, 31.0])
         ncols = rng.choice([7, 7, 7, 12, 12, 6, 5])
+        if ncols == 5 and ctx.get('afix') and ctx.get('afix_sof'):
+            ncols = 7       # an atom without its own occupation code under an AFIX that names one: what applies is not stated by the property
         if ncols == 12:
             u = [round(rng.uniform(0.01, 0.08), 5) for _ in range(3)] + [round(rng.uniform(-0.02, 0.02), 5) for _ in range(3)]
         elif ncols == 7:
@@ -451,6 +472,8 @@ def gen_layout(rng, tokens, kind, style):
         k = rng.randint(1, min(3, n - 1))
         lay['wraps'] = set(rng.sample(range(1, n), k))
         lay['indent'] = rng.randint(1, 6)
+        if rng.random() < 0.15:
+            lay['tight'] = True
     lay['gap'] = rng.choice([1, 1, 2, 'rand'])
     if rng.random() < 0.3:
         lay['comment'] = rng.choice(['a comment', 'x = y', 'note! twice', '=', 'C1 1 0 0 0'])
